@@ -2,7 +2,7 @@
    Soundness of the reference (a reported rejection is a real member of the language),
    completeness (no member is missed) and the laws that pin the reading of syntax.md. *)
 From Coq Require Import List String Bool.
-From RashV Require Import Usage UsageProofs Tail TailProofs.
+From RashV Require Import Usage UsageProofs Tail TailProofs HelpDoc HelpDocProofs UsageDoc UsageDocProofs.
 Import ListNotations.
 
 Theorem C08_reference_sound :
@@ -41,3 +41,18 @@ Theorem C08_tail_accepts_when_some_usage_fits : forall t argv usages ds l,
   (forall d, In d (tail_defs usages) -> List.length argv = List.length d -> bind_list t argv d d <> None) ->
   tail t argv usages = THelp \/ exists v, tail t argv usages = TVars v.
 Proof. exact tail_accepts_when_some_usage_fits. Qed.
+
+(* the front end (UsageDoc.v mirrors docopt::parse_usage; the hook feeds back what the code read): a usage
+   section written the documented way - `Usage:` alone on its line, the patterns indented below it, then an
+   empty line - yields exactly those patterns, whatever text follows *)
+Theorem C08_multiline_usage_section_is_read_verbatim : forall pats tail,
+  Forall pattern_ok pats ->
+  parse_usage_multiline (usage_nl ++ block pats ++ String nlc tail) = Some pats.
+Proof. exact multiline_section_is_read_verbatim. Qed.
+
+(* ... while the other documented layout (first pattern on the `Usage:` line, the rest below) loses every
+   pattern but the first: K13-usage-continuation-lines *)
+Theorem C08_continuation_lines_refuted :
+  usages_of_file (join_nl ["#!/usr/bin/env rash"; "#"; "# Usage: prog run [fast]"; "#        prog jump [high]"; "#"; "- debug:"; "    msg: x"]%string)
+  = Some ["prog run [fast]"%string].
+Proof. exact continuation_lines_refuted. Qed.
